@@ -226,8 +226,8 @@ func c13Strip(s string) string {
 // ---------------------------------------------------------------- reporting
 
 type c13Reporter struct {
-	mu  sync.Mutex
-	t   *testing.T
+	mu   sync.Mutex
+	t    *testing.T
 	n    int
 	max  int
 	stop int32
@@ -255,12 +255,12 @@ func (r *c13Reporter) count() int {
 }
 
 type c13Stats struct {
-	histories                  int
-	pureCases, pureNontrivial  int
-	lenCases, lenNontrivial    int
-	freshCases, freshNontriv   int
-	immutCases, immutNontriv   int
-	inPlace, realloc, atExact  int // histories whose clean result stays within / exceeds / exactly fills the initial capacity
+	histories                 int
+	pureCases, pureNontrivial int
+	lenCases, lenNontrivial   int
+	freshCases, freshNontriv  int
+	immutCases, immutNontriv  int
+	inPlace, realloc, atExact int // histories whose clean result stays within / exceeds / exactly fills the initial capacity
 }
 
 func (s *c13Stats) add(o c13Stats) {
@@ -825,26 +825,30 @@ func TestVerifBoundedC13(t *testing.T) {
 	var bound string
 	if thorough {
 		for _, k := range kinds {
-			for _, s := range c13Setups([]int{1, 100}, []int{57, 58, 59, 60, 61, 62, 63, 64}) {
+			for _, s := range c13Setups([]int{100}, []int{59, 61, 62, 63, 64}) {
 				jobs = append(jobs, c13Job{k, s, k.ops, 3, 0})
 			}
-			for _, s := range c13Setups([]int{1}, []int{56, 59, 62}) {
+			for _, s := range c13Setups([]int{1}, []int{57, 58, 60})[1:] {
+				jobs = append(jobs, c13Job{k, s, k.ops, 2, 0})
+			}
+			for _, s := range c13Setups(nil, []int{61}) {
 				jobs = append(jobs, c13Job{k, s, c13CoreOps(k.ops), 4, 0})
 			}
 		}
-		bound = fmt.Sprintf("StringBuilder (%d calls) and ManualBuffer (%d calls): every history of at most 3 calls over the full alphabet, from 11 start-ups (nothing, Grow(1), Grow(100), 57..64 raw bytes already in the 64-byte array); plus every history of at most 4 calls over the reduced alphabet (%d / %d calls) from 5 start-ups (nothing, Grow(1), 56, 59, 62 bytes); payloads: empty, 'a', LF, both markers, 0xC3, 0xA9, 0xE2 0x80, 0xB9, finished redactables",
+		bound = fmt.Sprintf("StringBuilder (%d calls) and ManualBuffer (%d calls): every history of at most 3 calls over the full alphabet from 7 start-ups (nothing, Grow(100), 59, 61, 62, 63 or 64 raw bytes already in the 64-byte array) and of at most 2 calls from 4 more (Grow(1), 57, 58, 60 bytes); plus every history of at most 4 calls over the reduced alphabet (%d / %d calls) from 2 start-ups (nothing, 61 bytes); payloads: empty, 'a', LF, both markers, 0xC3, 0xA9, 0xE2 0x80, 0xB9, finished redactables",
 			len(kinds[0].ops), len(kinds[1].ops), len(c13CoreOps(kinds[0].ops)), len(c13CoreOps(kinds[1].ops)))
 	} else {
 		for _, k := range kinds {
-			for _, s := range c13Setups(nil, []int{61}) {
-				jobs = append(jobs, c13Job{k, s, k.ops, 3, 0})
+			jobs = append(jobs, c13Job{k, c13Setup{}, k.ops, 3, 0})
+			for _, s := range c13Setups(nil, []int{59, 61, 62, 64})[1:] {
+				jobs = append(jobs, c13Job{k, s, c13CoreOps(k.ops), 3, 0})
 			}
-			for _, s := range c13Setups([]int{1, 100}, []int{57, 59, 60, 62, 63, 64})[1:] {
+			for _, s := range c13Setups([]int{1, 100}, []int{57, 59, 60, 61, 62, 63, 64})[1:] {
 				jobs = append(jobs, c13Job{k, s, k.ops, 2, 0})
 			}
 		}
-		bound = fmt.Sprintf("StringBuilder (%d calls) and ManualBuffer (%d calls): every history of at most 3 calls over the full alphabet from 2 start-ups (nothing; 61 raw bytes already in the 64-byte array, i.e. room for exactly one marker), and of at most 2 calls from 8 more start-ups (Grow(1), Grow(100), 57, 59, 60, 62, 63, 64 bytes); payloads: empty, 'a', LF, both markers, 0xC3, 0xA9, 0xE2 0x80, 0xB9, finished redactables",
-			len(kinds[0].ops), len(kinds[1].ops))
+		bound = fmt.Sprintf("StringBuilder (%d calls) and ManualBuffer (%d calls): every history of at most 3 calls over the full alphabet on a new object, of at most 3 calls over the reduced alphabet (%d / %d calls) with 59, 61, 62 or 64 raw bytes already in the 64-byte array, and of at most 2 calls over the full alphabet from 9 start-ups (Grow(1), Grow(100), 57, 59, 60, 61, 62, 63, 64 bytes); payloads: empty, 'a', LF, both markers, 0xC3, 0xA9, 0xE2 0x80, 0xB9, finished redactables",
+			len(kinds[0].ops), len(kinds[1].ops), len(c13CoreOps(kinds[0].ops)), len(c13CoreOps(kinds[1].ops)))
 	}
 	st := c13RunJobs(rep, jobs, c13Workers())
 	tEnum := time.Since(t0)
@@ -856,9 +860,9 @@ func TestVerifBoundedC13(t *testing.T) {
 		seed = v
 	}
 	rng := rand.New(rand.NewSource(seed))
-	samples := 3000
+	samples := 2000
 	if thorough {
-		samples = 60000
+		samples = 20000
 	}
 	var sst c13Stats
 	allSetups := c13Setups([]int{1, 65, 100}, []int{40, 57, 58, 59, 60, 61, 62, 63, 64, 100})
